@@ -306,7 +306,53 @@ func teiTable(depth int, stream []byte, withOracle bool) string {
 }
 
 func teiLine(op string, depth int, stream []byte) string {
-	return op + " " + strconv.Itoa(depth) + " " + hexOrDash(stream) + teiTable(depth, stream, op == "tei")
+	return op + " " + strconv.Itoa(depth) + " " + hexOrDash(stream) + teiTable(depth, stream, op == "tei" || op == "teibulk")
+}
+
+// chunkReader hands the stream over in pieces that ignore line boundaries (everything at once when n is huge): a
+// controller that pipelines its commands.  What the engine has written when Run returns is all a controller ever sees.
+type chunkReader struct {
+	b []byte
+	n int
+}
+
+func (r *chunkReader) Read(p []byte) (int, error) {
+	if len(r.b) == 0 {
+		return 0, io.EOF
+	}
+	k := r.n
+	if k > len(r.b) {
+		k = len(r.b)
+	}
+	k = copy(p, r.b[:k])
+	r.b = r.b[k:]
+	return k, nil
+}
+
+// runTEIBulk: outcome class and everything written, in order (no per-command snapshots: commands arrive pipelined)
+func runTEIBulk(depth int, stream []byte, chunk int) string {
+	var out bytes.Buffer
+	dls := &tei.VerifDeadlines{Detach: true}
+	e := tei.NewEngine(&chunkReader{b: stream, n: chunk}, &out)
+	e.ConfigFactory = teiConfig(depth)
+	class := "ok"
+	func() {
+		defer func() {
+			if r := recover(); r != nil {
+				class = "panic"
+			}
+		}()
+		if err := e.Run(tei.VerifRecording(context.Background(), dls)); err != nil {
+			class = "err"
+		}
+	}()
+	var ls []string
+	if txt := out.String(); txt != "" {
+		for _, l := range strings.Split(strings.TrimSuffix(txt, "\n"), "\n") {
+			ls = append(ls, canonInfo(l))
+		}
+	}
+	return class + " || " + strings.Join(ls, "~")
 }
 
 func hexOrDash(b []byte) string {
@@ -341,6 +387,10 @@ func init() {
 	// iteration completes, there is no move to report - and none may be invented
 	opTable["teiexp"] = func(s *Session, a []string) string {
 		return runTEIMode(atoi(a[0]), unhexOrDash(a[1]), false, true).render(false)
+	}
+	// teibulk <depth> <chunk> <hex> <answers...>: the same stream, handed over <chunk> bytes per Read
+	opTable["teibulk"] = func(s *Session, a []string) string {
+		return runTEIBulk(atoi(a[0]), unhexOrDash(a[2]), atoi(a[1]))
 	}
 	opTable["teiclass"] = func(s *Session, a []string) string {
 		return runTEI(atoi(a[0]), unhexOrDash(a[1]), false).render(true)
